@@ -143,6 +143,18 @@ func verif_harness_C03_cap_one() {
 	verifAttackBMCWith(1, int64(verif_param("workers")))
 }
 
+// C04 — two released hits with the worker cap reached (max-workers 1, one
+// initial worker): the second hit's wait is slept exactly as returned, however
+// long the first release waited for a free worker, and the second hit does not
+// start before it.
+//
+// Thorough tier only (4 min): the quick range of N is empty.
+//
+//verif:harness engine=gobmc param.N=2..1 thorough.param.N=2..2 unwind=16 replay=none bmctimeout=1500 queries=cut,bad thorough.bmctimeout=6000
+func verif_harness_C04_two_hits_cap_one() {
+	verifAttackBMCWith(1, 1)
+}
+
 func verifAttackBMC() { verifAttackBMCWith(0, -1) }
 
 func verifAttackBMCWith(fixedMax uint64, fixedWorkers int64) {
@@ -223,6 +235,28 @@ func verif_harness_C02_stop_once() {
 	if verif_ghost_add("stops_done", 0) == 3 {
 		verif_assert(verif_ghost_add("stops_reporting_true", 0) == 1, "C02.some-Stop-reports-initiating-the-stop")
 	}
+}
+
+// C02 — Stop calls before and after the end of an attack: the caller stops the
+// attack (or the pacer ends it first), consumes the results until the channel
+// is closed, and calls Stop again while the attack's own final Stop may or may
+// not have run yet: never do both of the caller's calls report that they
+// initiated the stop. The pacer releases no hit, so the model is the attack's
+// start and its epilogue.
+//
+//verif:harness engine=gobmc param.N=0..0 unwind=16 replay=none bmctimeout=600
+func verif_harness_C02_stop_before_and_after_the_end() {
+	a, pacer, tr := verifAttackSetup(verif_param("N"), 1)
+	verif_assume(a.workers == 0)
+	results := a.Attack(tr, pacer, 0, "atk")
+	verif_chan_name(results, "results")
+	verif_chan_codec(results, func(r *Result) uint64 { return r.Seq }, func(seq uint64) *Result { return &Result{Seq: seq} })
+	first := a.Stop()
+	for range results {
+		verif_assert(false, "C02.no-result-without-a-started-hit")
+	}
+	second := a.Stop()
+	verif_assert(!(first && second), "C02.only-one-Stop-reports-initiating-the-stop")
 }
 
 // C03 — the limits the attack works with are the configured ones: whatever
